@@ -65,6 +65,7 @@ fn main() {
         "layouts" => s_api::layouts(&mut tr, &mut rng, thorough),
         "buffers" => s_api::buffers(&mut tr, &mut rng, thorough),
         "custom" => s_api::custom(&mut tr, &mut rng, thorough),
+        "casts_mixed" => s_api::casts_mixed(&mut tr, &mut rng, thorough),
         "casts" => s_api::casts(&mut tr, &mut rng, thorough),
         "mono" => s_misc::mono(&mut tr, &mut rng, thorough, cases.as_deref()),
         "lower" => s_misc::lower(&mut tr, &mut rng, thorough, cases.as_deref()),
